@@ -60,13 +60,29 @@ class Gen(object):
             self.sides = hs[:nsides]
             self.r.shuffle(hs)
             self.names = hs[:6] + ["1", "2"]
-        # every fifth history: apps, sides, mailbox ids and bodies that differ only in Unicode normalisation form
-        self.nfmix = (not hostile) and seed % 5 == 4
-        if self.nfmix:
+        # Half of the histories use identifiers that are *distinct but confusable*: they differ only in Unicode
+        # normalisation form, only in letter case, only in blanks / non-printable characters / base32 padding, or
+        # one of them is the empty string.  For the server every string is its own identifier; a tree that
+        # canonicalises, strips, folds or truth-tests them merges or loses objects.
+        self.idclass = "plain"
+        if not hostile:
+            self.idclass = {4: "nf", 5: "case", 6: "blank", 7: "empty"}.get(seed % 8, "plain")
+        self.nfmix = self.idclass == "nf"
+        pair = {"nf": lambda x: (x + "\u00e9", x + "e\u0301"),
+                "case": lambda x: (x.lower() + "k", x.upper() + "K"),
+                "blank": lambda x: (x, [x + "\n", " " + x, x + "\x7f", x + "\u200b", x + "="][seed // 8 % 5]),
+                "empty": lambda x: ("", x)}.get(self.idclass)
+        self.mb_base = ["m1", "m2"]
+        self.pair = pair
+        if pair is not None:
             if len(self.apps) >= 2:
-                self.apps = ["\u00e4pp", "a\u0308pp"] + self.apps[2:]
+                self.apps = list(pair("app")) + self.apps[2:]
             if len(self.sides) >= 2 and not empty_side:
-                self.sides = ["s\u00e9", "se\u0301"] + self.sides[2:]
+                self.sides = list(pair("s")) + self.sides[2:]
+            if names is None:
+                self.names = self.names + list(pair("n")) + list(pair("4"))
+            else:
+                self.names = list(self.names) + list(pair(self.names[0]))
         self.steps = steps
         self.p_illegal = p_illegal
         self.restarts = restarts
@@ -93,11 +109,16 @@ class Gen(object):
 
     def explicit_mb(self, app):
         i = self.apps.index(app)
-        base = ["m1", "m2"]
-        if self.nfmix:
-            base = ["m\u00e9", "me\u0301"]
         if self.hostile:
             base = [HOSTILE[(self.seed + 3) % len(HOSTILE)], HOSTILE[(self.seed + 11) % len(HOSTILE)]]
+        elif self.pair is not None:
+            # confusable pair of ids (the same mailbox id in two apps is avoided: known finding F8)
+            a, b = self.pair("m" if self.cross_app else "m.%d" % i)
+            if self.idclass == "empty" and i != 0 and not self.cross_app:
+                a = "e.%d" % i
+            return [a, b]
+        else:
+            base = list(self.mb_base)
         if self.cross_app:
             return base
         return ["%s.%d" % (b, i) for b in base]
